@@ -8,10 +8,12 @@ import OrsoVerif.Drv.C07
 import OrsoVerif.Drv.C08
 import OrsoVerif.Drv.C09
 import OrsoVerif.Drv.C10
+import OrsoVerif.Drv.C11
 import OrsoVerif.Drv.C12
 import OrsoVerif.Drv.C15
 import OrsoVerif.Drv.C17
 import OrsoVerif.Drv.C18
+import OrsoVerif.Drv.C19
 
 open Wire
 
@@ -26,10 +28,12 @@ def dispatch (prop op : String) (args : List PyVal) : Option (List PyVal) :=
   | "C08" => Drv.C08.handle op args
   | "C09" => Drv.C09.handle op args
   | "C10" => Drv.C10.handle op args
+  | "C11" => Drv.C11.handle op args
   | "C12" => Drv.C12.handle op args
   | "C15" => Drv.C15.handle op args
   | "C17" => Drv.C17.handle op args
   | "C18" => Drv.C18.handle op args
+  | "C19" => Drv.C19.handle op args
   | _ => none
 
 def handle (toks : List String) : String :=
